@@ -72,7 +72,12 @@ class ShimQueue:
     def put(self, item):
         self.R.sched.yield_point(self.name + '.put')
         self.items.append(item)
-        self.R.log('put', q=self.name, item=item)
+        extra = {}
+        if self.name == 'reqq' and item == pp().SHUTDOWN_SIGNAL and self.R.interrupt_raised:
+            # shutdown() after Ctrl-C: what is unfinished now must have been cancelled
+            extra['uncancelled'] = [t for t, st in sorted(self.R.real_monitor._transfer_states.items())
+                                    if not st.done and st.exception is None]
+        self.R.log('put', q=self.name, item=item, **extra)
 
     def get(self):
         self.R.sched.yield_point(self.name + '.get')
@@ -159,6 +164,7 @@ class Run:
         self.branching = []
         self.done_seen = {}         # t -> step at which done was first sampled
         self.interrupted = False
+        self.interrupt_raised = False
 
     # -- logging ----------------------------------------------------------------
     def log(self, kind, **kw):
@@ -172,6 +178,7 @@ class Run:
         c = self.case.get('interrupt')
         if c and c.get('how') == 'in_result' and not self.interrupted:
             self.interrupted = True
+            self.interrupt_raised = True
             return True
         return False
 
@@ -367,10 +374,18 @@ class Run:
                     self.log('user_submitted', d=d, t=self.futures[d].meta.transfer_id)
                     if intr.get('how') == 'after_submit' and intr.get('n') == d:
                         self.log('user_interrupt')
+                        self.interrupt_raised = True
                         raise InjectedInterrupt()
                 if intr.get('how') == 'at_step':
-                    self.sched.block_until(lambda: self.sched.step >= intr['step'], 'interrupt point')
+                    me = self.sched.me()
+
+                    def others_idle():
+                        return all(t.finished or (t.wait_cond is not None and not t.wait_cond())
+                                   for t in self.sched.threads if t is not me)
+                    self.sched.block_until(lambda: self.sched.step >= intr['step'] or others_idle(),
+                                           'interrupt point')
                     self.log('user_interrupt')
+                    self.interrupt_raised = True
                     raise InjectedInterrupt()
                 for d, f in sorted(self.futures.items()):
                     try:
@@ -474,6 +489,7 @@ class Run:
                 self.livelock = str(l)
             self.steps = self.sched.step
             self.choices = list(self.sched.choices)
+            self.final_dest = {d: self.read(p) for d, p in self.dests.items()}
             self.final_checks()
         finally:
             m.threading = self.saved[0]
@@ -489,8 +505,8 @@ class Run:
         states = self.real_monitor._transfer_states
         if self.deadlock:
             # a canceller whose cancel point never came is not part of the pool
-            stuck = [t for t in self.sched.threads if not t.finished and t.name != 'canceller']
-            if stuck:
+            stuck = [x.split(' blocked on ')[0] for x in self.deadlock.split('; ')]
+            if [x for x in stuck if x != 'canceller']:
                 self.problems.append(('deadlock', 'deadlock: ' + self.deadlock))
         if self.livelock:
             self.problems.append(('livelock', 'livelock: ' + self.livelock))
@@ -515,6 +531,9 @@ class Run:
                 zero_at.setdefault(r['args'][0], []).append(r['thread'])
             elif r['ev'] == 'manager_shutdown':
                 shutdown_at = r['step']
+            if r['ev'] == 'put' and r.get('uncancelled'):
+                self.problems.append(('interrupt-not-cancelled', f'Ctrl-C in the with-block: shutdown starts while '
+                                      f'transfers {r["uncancelled"]} are neither done nor cancelled'))
             elif r['ev'] == 'mon' and r['m'] == 'notify_cancel_all_in_progress':
                 undone_at_interrupt = r['undone']
         for t, ws in zero_at.items():
@@ -630,6 +649,20 @@ class Run:
                 ev.append('ux')
         return f'{self.case["workers"]} ' + ' '.join(ev)
 
+    def outcome(self):
+        """coarse outcome of the first transfer, for the coverage histogram"""
+        m = pp()
+        st = self.real_monitor._transfer_states.get(0)
+        if st is None:
+            return 'not-created'
+        if not st.done:
+            return 'never-done' if st.exception is None else 'cancelled-unsubmitted'
+        if st.exception is None:
+            return 'success'
+        if isinstance(st.exception, m.CancelledError) and self.final_dest.get(0) == self.objects.get(0):
+            return 'cancel-after-check:file-in-place'
+        return 'failed:' + type(st.exception).__name__
+
     def impl_observables(self):
         """The final state in the syntax of the model driver's answer."""
         m = pp()
@@ -714,8 +747,23 @@ def mk_chooser(spec):
     if spec['type'] == 'pct':
         return core.PCTChooser(spec['seed'], depth=spec.get('depth', 3), horizon=spec.get('horizon', 250))
     if spec['type'] == 'replay':
-        return core.ReplayChooser(spec['choices'])
+        return StepReplay(spec['choices'])
     return core.FirstChooser()
+
+
+class StepReplay:
+    """Replays a recorded Sched.choices list.  The list has one entry per
+    scheduler step, also for the steps taken by an urgent thread (where the
+    chooser is not consulted): entries are addressed by step number."""
+
+    def __init__(self, choices):
+        self.choices = list(choices)
+
+    def choose(self, sched, runnable):
+        i = len(sched.choices)
+        if i < len(self.choices):
+            return min(self.choices[i], len(runnable) - 1)
+        return 0
 
 
 class Recording:
@@ -725,6 +773,8 @@ class Recording:
         self.inner, self.out = inner, out
 
     def choose(self, sched, runnable):
+        while len(self.out) < len(sched.choices):
+            self.out.append(1)              # a step taken by an urgent thread
         self.out.append(len(runnable))
         return self.inner.choose(sched, runnable)
 
@@ -766,7 +816,7 @@ class Batch:
                   workers=case['workers'], downloads=len(case['jobs']),
                   fault=(case.get('fault') or {}).get('kind', 'none'),
                   user=('cancel' if case.get('cancel') else 'interrupt' if case.get('interrupt') else 'plain'),
-                  chooser=tag)
+                  chooser=tag, outcome=run.outcome())
         for kind, text in run.problems:
             self.report_problem(case, run, kind, text)
         return run
@@ -812,23 +862,22 @@ class Batch:
         self.items = []
 
 
-def generate(ctx, batch, budget):
+def generate(ctx, batch):
     """random + PCT schedules over the scenario space; every single fault; a
-    cancelling / interrupting user at every yield index of a base schedule."""
-    import time
+    cancelling / interrupting user at every yield index of a base schedule.
+    Fixed case counts (no time budget): the case set is a function of the seed."""
     rng = ctx.rng('cases')
-    t0 = time.time()
     shapes = []
     for workers in (1, 2, 3):
         for jobs in ([1], [2], [3], [4], [1, 2], [2, 2], [3, 1], [2, 4]):
             shapes.append((workers, jobs))
 
     def over():
-        return time.time() - t0 > budget or len(ctx.violations) >= 5
+        return len(ctx.violations) >= 5 or ctx.broken is not None
 
     n = 0
     # 1. every single fault, on every shape, under random and PCT schedules
-    reps = 3 if ctx.thorough() else 1
+    reps = 4 if ctx.thorough() else 1
     for (workers, jobs) in shapes:
         for fault in fault_list(jobs):
             for rep in range(reps):
@@ -839,23 +888,23 @@ def generate(ctx, batch, budget):
                 spec = {'type': kind, 'seed': rng.randrange(1 << 30), 'stick': rng.choice([0.0, 0.5, 0.8])}
                 batch.run(mk_case(workers, jobs, fault, pre_dest=(n % 4 == 0)), spec, kind)
         batch.validate()
-    # 2. a cancelling user at every yield index; Ctrl-C at every yield index
-    bases = [(2, [2]), (3, [3]), (2, [2, 2]), (1, [2]), (2, [1]), (3, [2, 4])]
-    if not ctx.thorough():
-        bases = bases[:4]
-    for (workers, jobs) in bases:
-        for fault in [None, {'kind': 'get', 'download': 0, 'job': 0, 'where': 'mid', 'retryable': False, 'times': 1},
-                      {'kind': 'rename', 'download': 0}]:
-            seed = rng.randrange(1 << 30)
-            spec = {'type': 'random', 'seed': seed, 'stick': 0.5}
+    # 2. a cancelling user at every yield index; Ctrl-C at every (second) yield index
+    job_mid = {'kind': 'get', 'download': 0, 'job': 0, 'where': 'mid', 'retryable': False, 'times': 1}
+    ren = {'kind': 'rename', 'download': 0}
+    bases = [(2, [2], None), (2, [2], job_mid), (2, [2], ren), (2, [2, 2], None), (1, [2], None), (3, [3], None)]
+    if ctx.thorough():
+        bases += [(3, [2, 4], None), (2, [1], None), (3, [3], job_mid), (2, [2, 2], ren), (1, [4], None),
+                  (2, [3, 1], {'kind': 'alloc', 'download': 1, 'where': 'mid'})]
+    for (workers, jobs, fault) in bases:
+        for rep in range(2 if ctx.thorough() else 1):
+            spec = {'type': 'random', 'seed': rng.randrange(1 << 30), 'stick': 0.5}
             base = batch.run(mk_case(workers, jobs, fault), spec, 'random')
-            stride = 1 if (ctx.thorough() or fault is None) else 3
-            for k in range(0, base.steps + 1, stride):
+            for k in range(0, base.steps + 1):
                 if over():
-                    batch.validate()
                     return
-                for dl in range(len(jobs)):
-                    batch.run(mk_case(workers, jobs, fault, cancel={'download': dl, 'step': k}), spec, 'cancel-sweep')
+                batch.run(mk_case(workers, jobs, fault, cancel={'download': 0, 'step': k}), spec, 'cancel-sweep')
+                if len(jobs) > 1 and (k % 2 == 1 or ctx.thorough()):
+                    batch.run(mk_case(workers, jobs, fault, cancel={'download': 1, 'step': k}), spec, 'cancel-sweep')
                 if k % 2 == 0 or ctx.thorough():
                     batch.run(mk_case(workers, jobs, fault, interrupt={'how': 'at_step', 'step': k}), spec,
                               'interrupt-sweep')
@@ -864,7 +913,9 @@ def generate(ctx, batch, budget):
                 batch.run(mk_case(workers, jobs, fault, interrupt=how), spec, 'interrupt')
             batch.validate()
     # 3. more random / PCT schedules with random faults and users
-    while not over():
+    for n in range(4000 if ctx.thorough() else 500):
+        if over():
+            return
         workers, jobs = rng.choice(shapes)
         fault = rng.choice(fault_list(jobs))
         cancel = interrupt = None
@@ -878,8 +929,7 @@ def generate(ctx, batch, budget):
         spec = {'type': kind, 'seed': rng.randrange(1 << 30), 'stick': rng.choice([0.0, 0.6]),
                 'depth': rng.choice([2, 3, 5])}
         batch.run(mk_case(workers, jobs, fault, cancel, interrupt, pre_dest=rng.random() < 0.3), spec, kind)
-        n += 1
-        if n % 100 == 0:
+        if n % 100 == 99:
             batch.validate()
     batch.validate()
 
@@ -887,11 +937,12 @@ def generate(ctx, batch, budget):
 def sweep(ctx, batch, case, bound, cap):
     """Exhaustive-ish: every schedule that deviates from run-to-block (the
     FirstChooser) at most `bound` times, by replayed choice prefixes."""
+    import collections
     seen = set()
-    frontier = [([], 0)]
+    frontier = collections.deque([([], 0)])     # breadth first: fewer deviations first
     runs = 0
     while frontier and runs < cap and len(ctx.violations) < 5:
-        prefix, dev = frontier.pop()
+        prefix, dev = frontier.popleft()
         key = tuple(prefix)
         if key in seen:
             continue
@@ -931,18 +982,20 @@ def run(ctx):
         'scheduler step. A case is distinct/non-trivial by (scenario signature, full list of scheduling choices).')
     batch = Batch(ctx)
     if ctx.broken is None:
-        generate(ctx, batch, budget=150 if ctx.thorough() else 38)
+        generate(ctx, batch)
     if ctx.broken is None:
         small = mk_case(2, [2])
         r, complete = sweep(ctx, batch, small, bound=3 if ctx.thorough() else 2,
-                            cap=6000 if ctx.thorough() else 500)
+                            cap=12000 if ctx.thorough() else 2500)
         ctx.cov['sweep'] = {'scenario': small, 'preemption_bound': 3 if ctx.thorough() else 2, 'runs': r,
                             'complete_within_bound': complete}
         if ctx.thorough():
             for c in (mk_case(2, [2], cancel={'download': 0, 'step': 40}),
                       mk_case(3, [3], {'kind': 'get', 'download': 0, 'job': 1, 'where': 'mid', 'retryable': False, 'times': 1}),
                       mk_case(2, [1, 2], {'kind': 'rename', 'download': 1})):
-                sweep(ctx, batch, c, bound=2, cap=2500)
+                r2, complete2 = sweep(ctx, batch, c, bound=2, cap=6000)
+                ctx.cov.setdefault('more_sweeps', []).append(
+                    {'scenario': c, 'preemption_bound': 2, 'runs': r2, 'complete_within_bound': complete2})
     if ctx.broken is not None:
         search_after_break(ctx)
 
